@@ -35,12 +35,12 @@ class DocIdSet(object):
     """
 
     def __eq__(self, other):
-        for a, b in izip(self, other):
+        for a, b in izip_longest(self, other, fillvalue=None):
             if a != b:
                 return False
         return True
 
-    def __neq__(self, other):
+    def __ne__(self, other):
         return not self.__eq__(other)
 
     def __len__(self):
